@@ -47,7 +47,7 @@ class Cb:
         return sarr([v]), None
 
 
-def run_step(ctx, kernel, u, logl0, logl_prop, beta, ms, sigma, draws, periodic, reflective, max_calls):
+def run_step(ctx, kernel, u, logl0, logl_prop, beta, ms, sigma, draws, periodic, reflective, max_calls, mode=0):
     cb = Cb([logl_prop])
     it = iter(draws)
 
@@ -64,17 +64,17 @@ def run_step(ctx, kernel, u, logl0, logl_prop, beta, ms, sigma, draws, periodic,
     proxy = NpProxy(random=stub, exact_log=True, object_constructors=True,
                     overrides={"nan_to_num": lambda a, nan=0.0, **k: a})
     noadapt = lambda self, c, mean_accept: None
-    sig = lambda self: sarr([sigma])
+    sig = lambda self: sarr([sigma] * int(np.shape(ms.means)[0]))
     with patched(mcmc, np=proxy), patched_attr(mcmc.TPCNRunner, _adapt_sigma=noadapt, _initialize_sigmas=sig, _check_convergence=lambda self, acc: True), \
             patched_attr(mcmc.RWMRunner, _adapt_sigma=noadapt, _initialize_sigmas=sig, _check_convergence=lambda self, acc: True):
-        out = mcmc.parallel_mcmc(u=sarr([u]), x=sarr([u]), logl=sarr([logl0]), blobs=None, assignments=np.zeros(1, dtype=int),
+        out = mcmc.parallel_mcmc(u=sarr([u]), x=sarr([u]), logl=sarr([logl0]), blobs=None, assignments=np.array([mode], dtype=int),
                                  beta=float(beta), mode_stats=ms, log_likelihood=cb.log_likelihood, prior_transform=cb.prior_transform,
                                  n_steps=1, n_max=1, sample=kernel, periodic=periodic, reflective=reflective, verbose=False)
     return out, cb, stub
 
 
-def make_kernel(kernel, d, bkind, beta, nu=None, wraps=1, skip_ratio=False):
-    """bkind in interior|hard|periodic|reflective (coordinate 0)."""
+def make_kernel(kernel, d, bkind, beta, nu=None, wraps=1, skip_ratio=False, K=1, mode=0):
+    """bkind in interior|hard|periodic|reflective (coordinate 0). K modes, the walker attached to `mode` (the other modes are empty)."""
     beta = Fraction(beta)
     D = beta.denominator
     nu = nu if nu is not None else (3.0 if d == 1 else 2.0)
@@ -92,7 +92,7 @@ def make_kernel(kernel, d, bkind, beta, nu=None, wraps=1, skip_ratio=False):
 
     def harness_body(ctx: PathCtx):
         u = [real(ctx, f"u{j}", lo=0, hi=1, hi_strict=(bkind == "periodic" and j == 0)) for j in range(d)]
-        ms = sym_mode_stats(ctx, d, 1, nu=nu)
+        ms = sym_mode_stats(ctx, d, K, nu=nu)
         sigma = real(ctx, "sigma", lo=0, lo_strict=True, hi=1, hi_strict=True)
         l0 = LogVal.atom("l_cur", D)
         l1 = LogVal.atom("l_prop", D)
@@ -102,7 +102,7 @@ def make_kernel(kernel, d, bkind, beta, nu=None, wraps=1, skip_ratio=False):
         zarr = sarr(z)
         draws = ([("gamma", g)] if kernel == "tpcn" else []) + [("randn", zarr), ("rand", sarr([r1]))]
         try:
-            out, cb, stub = run_step(ctx, kernel, u, l0, l1, beta, ms, sigma, draws, periodic, reflective, max_calls=len(draws))
+            out, cb, stub = run_step(ctx, kernel, u, l0, l1, beta, ms, sigma, draws, periodic, reflective, max_calls=len(draws), mode=mode)
         except BoundExceeded as e:
             if "integer part" in str(e):
                 raise  # declared wrap-count cut
@@ -118,8 +118,8 @@ def make_kernel(kernel, d, bkind, beta, nu=None, wraps=1, skip_ratio=False):
             ctx.ok("out-of-bounds-proposals-are-rejected-not-redrawn")
         up = cb.proposals[0]
         alpha = scalar(out[5])
-        L = ms.chol_covariances[0]
-        mu = ms.means[0]
+        L = ms.chol_covariances[mode]
+        mu = ms.means[mode]
         Lz = [L[0][0] * z[0]] if d == 1 else [L[0][0] * z[0], L[1][0] * z[0] + L[1][1] * z[1]]
         if kernel == "tpcn":
             y_spec = [mu[j] + (1.0 - sigma ** 2.0).sqrt() * (u[j] - mu[j]) + sigma * (1.0 / g).sqrt() * Lz[j] for j in range(d)]
@@ -163,7 +163,7 @@ def make_kernel(kernel, d, bkind, beta, nu=None, wraps=1, skip_ratio=False):
             r2 = real(ctx, "urand_rev", lo=0, hi=1, hi_strict=True)
             draws2 = ([("gamma", g)] if kernel == "tpcn" else []) + [("randn", sarr(zc)), ("rand", sarr([r2]))]
             try:
-                out2, cb2, stub2 = run_step(ctx, kernel, up, l1, l0, beta, ms, sigma, draws2, periodic, reflective, max_calls=len(draws2))
+                out2, cb2, stub2 = run_step(ctx, kernel, up, l1, l0, beta, ms, sigma, draws2, periodic, reflective, max_calls=len(draws2), mode=mode)
             except BoundExceeded:
                 landed.append(z3.BoolVal(False))
                 rev_info.append(None)
@@ -205,13 +205,15 @@ def make_kernel(kernel, d, bkind, beta, nu=None, wraps=1, skip_ratio=False):
         return None
 
     def replay(m, label, v):
+        if K > 1:
+            return replay_multimode(kernel, float(beta), nu, K, mode, m, label)
         return replay_kernel(kernel, d, bkind, float(beta), nu, m, label)
 
-    name = f"{kernel}-{bkind}-d{d}-beta{beta}" + (f"-nu{int(nu)}" if skip_ratio else "")
+    name = f"{kernel}-{bkind}-d{d}-beta{beta}" + (f"-nu{int(nu)}" if skip_ratio else "") + (f"-K{K}mode{mode}" if K > 1 else "")
     return Obligation(name, harness, replay=replay,
                       encodes=[mcmc.parallel_mcmc, mcmc.BaseMCMCRunner.run, mcmc.TPCNRunner._propose, mcmc.TPCNRunner._compute_acceptance_factor,
                                mcmc.RWMRunner._propose, mcmc.apply_boundary_conditions, mcmc.check_bounds],
-                      bounds=f"d={d}, K=1, one walker, one step, boundary kind {bkind} on coordinate 0, beta={beta}, nu={nu}, symbolic sigma in (0,1), "
+                      bounds=f"d={d}, K={K} (walker on mode {mode}), one walker, one step, boundary kind {bkind} on coordinate 0, beta={beta}, nu={nu}, symbolic sigma in (0,1), "
                              "symbolic mode (mu, Cholesky factor), all draws symbolic; a second proposal draw is reported, not followed; wrap count |k| <= " + str(wraps),
                       stubs=["np.random.gamma/randn/rand -> symbolic draws with recorded call parameters", "np.log/np.exp -> exact log-domain algebra",
                              "_adapt_sigma -> no-op, _check_convergence -> True (one iteration), _initialize_sigmas -> symbolic sigma", "np.sqrt -> fresh r>=0 with r*r==x (cached per radicand)"],
@@ -512,6 +514,67 @@ def replay_composition(kernel, K, assignment, beta, nu, m, label):
                     f"({txt}; max difference {err:.3g}) ({label})"}
 
 
+def replay_multimode(kernel, beta, nu, K, mode, m, label):
+    """float replay for K > 1: the acceptance probability of the real step (walker on `mode`, other modes empty) against
+    min(1, joint-density ratio) computed with the walker's own mode, on the model's point and on a fixed family."""
+    from vf.engine.util import scripted_random
+    vals = {k: float(v) for k, v in m.items() if not k.startswith("obs:") and not isinstance(v, (bool, str))}
+    D = Fraction(beta).limit_denominator(64).denominator
+    worst = None
+    for i in range(8):
+        rng = np.random.RandomState(50 + i)
+        if i == 0:
+            try:
+                mus = [vals[f"mu{k}_0"] for k in range(K)]
+                Ls = [vals[f"L{k}_00"] for k in range(K)]
+                u0, sg, g, z0 = vals["u0"], vals["sigma"], vals.get("g", 1.0), vals["z0"]
+                lc, lp = D * math.log(vals["expatom_l_cur"]), D * math.log(vals["expatom_l_prop"])
+            except Exception:
+                continue
+        else:
+            mus = rng.uniform(0.2, 0.8, K).tolist()
+            Ls = (rng.uniform(0.05, 0.5, K) * np.array([1.0, 4.0, 0.3][:K])).tolist()
+            u0, sg, g, z0 = float(rng.uniform(0.3, 0.7)), float(rng.uniform(0.3, 0.9)), float(rng.gamma(2.0, 0.5)), float(rng.randn() * 0.3)
+            lc, lp = 0.0, 0.2
+        ms = ModeStatistics(np.array(mus).reshape(K, 1), (np.array(Ls) ** 2).reshape(K, 1, 1), np.full(K, float(nu)))
+        cls = mcmc.TPCNRunner if kernel == "tpcn" else mcmc.RWMRunner
+        gam, seen = [], []
+
+        def gamma_spy(shape=None, scale=1.0, size=None):
+            gam.append((float(shape), float(np.asarray(scale).ravel()[0])))
+            return g
+
+        def pt(q):
+            seen.append(float(np.asarray(q).ravel()[0]))
+            return q
+        try:
+            with scripted_random(gamma=gamma_spy, randn=lambda *a: np.array([z0]), rand=lambda *a: np.array([0.5])), \
+                    patched_attr(cls, _initialize_sigmas=lambda self: np.full(K, sg), _adapt_sigma=lambda self, c, a_: None, _check_convergence=lambda self, acc: True):
+                out = mcmc.parallel_mcmc(u=np.array([[u0]]), x=np.array([[u0]]), logl=np.array([lc]), blobs=None, assignments=np.array([mode]), beta=beta,
+                                         mode_stats=ms, log_likelihood=lambda x: (np.array([lp]), None), prior_transform=pt, n_steps=1, n_max=1, sample=kernel, verbose=False)
+        except Exception as e:
+            return {"reproduced": True, "signature": f"{kernel}:K{K}:raised", "payload": {"error": repr(e)}, "what": f"{kernel} step with K={K}, walker on mode {mode}: raised {type(e).__name__}: {e}"}
+        up, alpha = seen[0], float(out[5])
+        if up == u0 and alpha == 0.0:
+            continue
+        mu_, l_ = mus[mode], Ls[mode]
+        log_ratio = beta * (lp - lc)
+        if kernel == "tpcn":
+            k_ = (1 + nu) / 2
+            dl, dlp = ((u0 - mu_) / l_) ** 2, ((up - mu_) / l_) ** 2
+            log_ratio += k_ * math.log((nu + dlp) / (nu + dl))  # Student-t reference density ratio t(u)/t(u') of the walker's own mode
+        exact = min(1.0, math.exp(log_ratio))
+        err = abs(alpha - exact)
+        if worst is None or err > worst[0]:
+            worst = (err, i, u0, up, alpha, exact, mus, Ls)
+    if worst is None:
+        return {"reproduced": False, "what": "no in-cube proposal in the replay family"}
+    err, i, u0, up, alpha, exact, mus, Ls = worst
+    return {"reproduced": bool(err > 1e-9), "signature": f"{kernel}:K{K}:acceptance-uses-another-mode", "payload": {"means": mus, "scales": Ls, "mode": mode, "u": u0, "proposal": up, "code_alpha": alpha, "exact_alpha": exact},
+            "what": f"{kernel}, K={K} modes (means {mus}, scales {Ls}), walker on mode {mode} and the other modes empty: step {u0:.6g} -> {up:.6g} has acceptance {alpha:.6g}, "
+                    f"min(1, joint density ratio with the walker's own mode) is {exact:.6g} ({label})"}
+
+
 def _norm_pdf(x, m, s):
     return math.exp(-0.5 * ((x - m) / s) ** 2) / (s * math.sqrt(2 * math.pi))
 
@@ -723,12 +786,14 @@ def obligations(tier):
     obs = [make_kernel("tpcn", 1, "interior", 1), make_kernel("tpcn", 1, "interior", H), make_kernel("tpcn", 1, "hard", H), make_kernel("rwm", 1, "hard", 1),
            make_kernel("rwm", 1, "periodic", H), make_kernel("rwm", 1, "reflective", 1), make_kernel("tpcn", 1, "periodic", 1),
            make_propose_only(1501), make_modestats(1), make_modestats(2), make_kernel("tpcn", 2, "interior", 1),
-           make_composition("tpcn", 1, 0), make_composition("rwm", 2, 1), make_composition("tpcn", 2, 0)]
+           make_composition("tpcn", 1, 0), make_composition("rwm", 2, 1), make_composition("tpcn", 2, 0),
+           make_kernel("tpcn", 1, "interior", H, K=2, mode=1)]
     if tier == "thorough":
         # (tpCN on a reflective coordinate is not enumerated: the parity forks exhaust the budget; its known finding is the
         #  same defect as on periodic coordinates, which the quick tier reports)
         obs += [make_kernel("tpcn", 1, "interior", H, nu=5.0), make_kernel("tpcn", 1, "periodic", H, wraps=2),
                 # (tpcn d=2 at beta=1/2, nu=4 - power 3 of a quadratic form in 2-d - ends in nlsat `unknown`: not scheduled)
                 make_kernel("rwm", 2, "hard", 1), make_kernel("rwm", 2, "periodic", 1),
-                make_composition("tpcn", 2, 1, nu=5.0), make_composition("rwm", 1, 0, beta=1), make_composition("rwm", 2, 0)]
+                make_composition("tpcn", 2, 1, nu=5.0), make_composition("rwm", 1, 0, beta=1), make_composition("rwm", 2, 0),
+                make_kernel("tpcn", 1, "hard", 1, K=3, mode=2), make_kernel("rwm", 1, "hard", 1, K=2, mode=1), make_kernel("tpcn", 1, "interior", 1, K=3, mode=1)]
     return obs
